@@ -60,8 +60,17 @@ def _expr(rng, depth, maxl, big=None):
         return _leaf(rng, maxl)
     k = rng.random()
     if k < 0.5:
-        a, va = _expr(rng, depth - 1, maxl, big)
-        b, vb = _expr(rng, depth - 1, maxl, big)
+        if rng.random() < 0.2:
+            # two non-integers over the SAME denominator (the fast paths people write for this case)
+            q = rng.choice([2, 3, 4, 6, 10, 12, 2 ** 32, 2 ** 32 + 1, N.rand_mag(rng, 2) or 7])
+            p1, p2 = N.rand_int(rng, 1), N.rand_int(rng, 1)
+            if rng.random() < 0.3:
+                p2 = -p1
+            a, va = '%s %s nfrombig' % (N.limbs_tok(p1), N.limbs_tok(q)), N.frac(p1, q)
+            b, vb = '%s %s nfrombig' % (N.limbs_tok(p2), N.limbs_tok(q)), N.frac(p2, q)
+        else:
+            a, va = _expr(rng, depth - 1, maxl, big)
+            b, vb = _expr(rng, depth - 1, maxl, big)
         op = rng.choice(['nadd', 'nmul', 'naddas', 'nmulas'])
         if va is not None and vb is not None:
             # the implementation forms unreduced cross products before dividing by the gcd
